@@ -135,6 +135,7 @@ PROOFS.append(Proof('space_text_apply', impl='contracts/C19/sptext.impl.cpp', sp
                     note='direct VC; int <-> size_t arithmetic on columns is the code\'s own (signed overflow check off: `column += min_sp` mixes int and size_t by design)',
                     mutants=[('angle_close_by_text', r'&& next->Is\(CT_ANGLE_CLOSE\)\)', '&& next->IsString(">"))', 'postcondition'),
                              ('words_not_forced', r'(back-to-back words need a space.*?\n.*?\n\s*)pc->SetFlagBits\(PCF_FORCE_SPACE\);', r'\1;', 'postcondition'),
+                             ('comment_opener_only_for_star', r"&& \(  next->GetStr\(\)\[0\] == '\*'\n\s*\|\| next->GetStr\(\)\[0\] == '/'\)\)", "&& (  next->GetStr()[0] == '*'))", 'postcondition'),
                              ('force_adds_two', r'column \+= min_sp;  // add exactly the specified number of spaces', 'column += min_sp + 1;', 'postcondition')]))
 import replay_lib  # noqa: E402
 sys.path.insert(0, os.path.join(os.path.dirname(os.path.abspath(__file__)), '..', 'shared'))
